@@ -20,7 +20,7 @@ from . import strategies as S
 from .core import SchedAbort
 
 
-def run_parallel(thunks, seed, line_p=0.2, gran="line", strategy="uniform", step_cap=200000):
+def run_parallel(thunks, seed, line_p=0.2, gran="line", strategy="uniform", step_cap=200000, setup=None):
     """-> (results, info): results[i] = ("ok", value) | ("exc", repr) | None (never finished)"""
     import random
 
@@ -28,6 +28,8 @@ def run_parallel(thunks, seed, line_p=0.2, gran="line", strategy="uniform", step
 
     def script(sched):
         threads = []
+        if setup is not None:
+            setup()  # the shared object is built inside the run: the locks, events, queues it creates are the scheduler's
         for i, th in enumerate(thunks):
             holder = {}
 
@@ -87,7 +89,7 @@ def run_real_threads(thunks, rounds=1):
     return results
 
 
-def check_parallel(ctx, what, thunks, seed, describe=None, line_p=None, gran=None, real=True):
+def check_parallel(ctx, what, thunks, seed, describe=None, line_p=None, gran=None, real=True, setup=None):
     """thunks: callables without arguments returning a comparable value; each builds/uses its OWN objects.
     Reports a violation '<what>-differs-when-another-thread-uses-the-library' when a thunk's result under an
     interleaving differs from its result when run alone.  -> True when everything agreed."""
@@ -95,6 +97,8 @@ def check_parallel(ctx, what, thunks, seed, describe=None, line_p=None, gran=Non
 
     rng = random.Random(seed)
     alone = []
+    if setup is not None:
+        setup()
     for th in thunks:
         try:
             alone.append(("ok", th()))
@@ -104,11 +108,19 @@ def check_parallel(ctx, what, thunks, seed, describe=None, line_p=None, gran=Non
     g = gran if gran is not None else rng.choice(("line", "line", "instr"))
     if g == "instr":
         p = min(p, 0.1)
-    got, info = run_parallel(thunks, seed, line_p=p, gran=g, strategy=rng.choice(("uniform", "uniform", "sticky", "pct")))
+    inside = setup is not None and bool(seed & 2)
+    got, info = run_parallel(thunks, seed, line_p=p, gran=g, strategy=rng.choice(("uniform", "uniform", "sticky", "pct")), setup=setup if inside else None)
+    if inside:
+        ctx.count("parallel_rounds_with_the_shared_object_built_inside_the_run")
+        setup()
     ctx.count("parallel_rounds")
     ctx.count("parallel_threads", len(thunks))
     ctx.count("parallel_preemptions", info.get("line_preemptions", 0))
     ctx.count("parallel_context_switches", info.get("context_switches", 0))
+    if info.get("detached_threads"):
+        # a thread sat in a blocking call the scheduler does not know (a real lock of an object built before the run): the
+        # others went on without it
+        ctx.count("parallel_threads_found_blocked_outside_the_scheduler", info["detached_threads"])
     ok = True
     if info.get("aborted") is not None and info["aborted"][0] in ("step-cap", "wall-cap"):
         ctx.count("inconclusive_parallel_rounds")
